@@ -111,13 +111,10 @@ theorem xrefRows_complete (w1 w2 w3 s : Nat) : ∀ (rows : List SRow) (j : Nat) 
     have hmax : ¬ ((s : Int) + (j : Int) > ((I64_MAX : Nat) : Int)) := by simp only [I64_MAX]; omega
     have hid : (((s : Int) + (j : Int)) % ((U32 : Nat) : Int)).toNat = s + j := by simp only [U32]; omega
     have hm3 : f3 % 65536 = f3 := Nat.mod_eq_of_lt h3b
-    have ht2 : t = 0 ∨ t = 1 ∨ t = 2 := by
-      by_cases hw : w1 = 0
-      · simp only [hw, if_true] at ht; omega
-      · simp only [hw, if_false] at ht; omega
+    have ht2 : t = 0 ∨ t = 1 ∨ t = 2 ∨ (t ≠ 0 ∧ t ≠ 1 ∧ t ≠ 2) := by omega
     rw [List.length_cons, xrefRows]
     simp only [hty]
-    rcases ht2 with rfl | rfl | rfl
+    rcases ht2 with rfl | rfl | rfl | ⟨n0, n1, n2⟩
     · simp only [if_true, hf2, hf3, ih', rowBindings_cons, rowEntry, e1]
       simp
     · simp only [show ((1 : Nat) = 0) = False by simp, if_false, if_true, hf2, hg, hmax, hid, hm3, ih',
@@ -126,6 +123,9 @@ theorem xrefRows_complete (w1 w2 w3 s : Nat) : ∀ (rows : List SRow) (j : Nat) 
     · simp only [show ((2 : Nat) = 0) = False by simp, show ((2 : Nat) = 1) = False by simp, if_false,
         if_true, hf2, hf3, hmax, hid, hm3, ih', rowBindings_cons, rowEntry, e1]
       simp [bindAll]
+    · -- undefined type: the whole row is skipped and denotes nothing
+      simp only [n0, n1, n2, if_false, hf2, hf3, ih', rowBindings_cons, rowEntry, e1]
+      simp
 
 /-! ### subsections -/
 
@@ -197,7 +197,7 @@ theorem index_resolved (d : Dict) (size : Int) (subs : List SSub) (h : IndexDeno
 /-- **Cross-reference streams, every `W` and `Index`.** For a stream dictionary without filter
 whose `Size` is an integer, whose `W` is `[w1 w2 w3]` and whose `Index` names the subsections
 (or is absent, for the single subsection `[0 Size]`), and the content the reference encoder
-produces from well-formed rows — at least one row, at least one non-zero width —,
+produces from well-formed rows of ANY type — at least one row, at least one non-zero width —,
 `decode_xref_stream` yields exactly the denoted map, `Size` as `u32`, and the dictionary without
 `Length`, `W`, `Index` as the trailer. -/
 theorem xrefStream_complete (d : Dict) (size : Int) (w1 w2 w3 : Nat) (subs : List SSub)
@@ -290,6 +290,18 @@ example : streamTableOf exSubsC = [(1, .normal 5 0)] := by decide
 an undefined type is skipped as a whole and object 1 is found. -/
 theorem unknownType_skipped :
     (decodeXrefStream (xrefDict 2 1 1 1 exSubsC) (encodeSubs 1 1 1 exSubsC)).map (·.1) = .ok (streamTableOf exSubsC) := by
+  decide
+
+/-- the same as an instance of the general theorem (rows of ANY type are inside `RowOk`) -/
+example : decodeXrefStream (xrefDict 2 1 1 1 exSubsC) (encodeSubs 1 1 1 exSubsC) =
+    .ok (streamTableOf exSubsC, 2, (((xrefDict 2 1 1 1 exSubsC).remove LENGTH).remove W_KEY).remove INDEX) := by
+  obtain ⟨h1, h2, h3, h4⟩ := xrefDict_facts 2 1 1 1 exSubsC
+  exact xrefStream_complete _ 2 1 1 1 exSubsC h1 h2 h3 h4 (by unfold SubsOk exSubsC RowOk; decide)
+    (by decide) (by decide)
+
+/-- a row of type 255 between two in-use rows, `W [1 2 1]` -/
+example : SubsOk 1 2 1 [(4, [(1, 10, 0), (255, 513, 9), (1, 20, 0)])] := by unfold SubsOk RowOk; decide
+example : streamTableOf [(4, [(1, 10, 0), (255, 513, 9), (1, 20, 0)])] = [(4, .normal 10 0), (6, .normal 20 0)] := by
   decide
 
 end Lopdf.Grammar
